@@ -250,7 +250,9 @@ def gen_sim(rng, algo=None, gen='G-sim', small=True):
                 s['memory_gb'] = float(rng.choice([0, 0.25, 0.5, 1, 1.5, 2, 3, 5, 9, 17, 40]) * rng.choice([share, 1, 1]))
                 if s['memory_gb'] > 2 * ram:
                     s['memory_gb'] = float(ram)
-            ops.append([s])
+            ops.append([s] if rng.random() < 0.8 else
+                       [s, dict(baseline_cpu_seconds=float(rng.choice([1, 2, 3])) / tps, cpu_scaling='const',
+                                storage_read_gb=0.0, memory_gb=float(rng.choice([0, 0.25, 0.5, 1])))])
         segs.append(ops)
         t = rng.choice([0, 0, 0, 1, 2, 5, 10, 30, 60]) if rng.random() < 0.7 else rng.randrange(0, max(1, nticks))
         arrivals.append((t, k))
@@ -277,7 +279,9 @@ def gen_preempt(rng, gen='G-sim-preempt'):
             ticks = rng.choice([1, 1, 2, 3])
             s = dict(baseline_cpu_seconds=float(ticks) / tps, cpu_scaling='const', storage_read_gb=0.0,
                      memory_gb=float(rng.choice([0.25, 0.5, 1.0]) * (share if not heavy else 3 * share)))
-            ops.append([s])
+            # sometimes two segments per operator: segment boundaries inside an operator are not operator boundaries
+            ops.append([s] if rng.random() < 0.7 else
+                       [s, dict(s, baseline_cpu_seconds=float(rng.choice([1, 2])) / tps)])
         return ops
     for k in range(nb):
         n = rng.randint(2, 5)
